@@ -720,7 +720,6 @@ fn c11_scenarios(w: usize, n: usize) -> Vec<(String, Scenario)> {
 pub fn run_c11(tier: Tier, budget: Duration, frag: &mut Frag) {
     let q = tier == Tier::Quick;
     let start = Instant::now();
-    let deadline = start + budget;
     let mon = Mon::of("C04");
     // (width, preemption bound or delay bound, delay mode)
     let mut cfgs: Vec<(usize, u32, bool)> = vec![(2, 2, false), (3, 1, false)];
@@ -731,7 +730,10 @@ pub fn run_c11(tier: Tier, budget: Duration, frag: &mut Frag) {
     }
     let mut neg_deadlocks = 0u64;
     let mut neg_runs = 0u64;
-    for (w, bound, delay) in cfgs {
+    let ncfg = cfgs.len() as u32;
+    for (ci, (w, bound, delay)) in cfgs.into_iter().enumerate() {
+        // every configuration gets its share of the budget; unused time is passed on
+        let deadline = Instant::now() + (budget.saturating_sub(start.elapsed())) / (ncfg - ci as u32);
         // positive: pool size >= width must never deadlock
         for n in [w, w + 1] {
             let scs: Vec<Scenario> = c11_scenarios(w, n).into_iter().map(|x| x.1).collect();
@@ -765,7 +767,8 @@ pub fn run_c11(tier: Tier, budget: Duration, frag: &mut Frag) {
         // negative control: one thread too few must deadlock
         if w >= 2 {
             let scs: Vec<Scenario> = c11_scenarios(w, w - 1).into_iter().map(|x| x.1).collect();
-            let opts = ExploreOpts { bounds: vec![0], all_points: false, deadline, max_execs: 64, keep_traces: 0, deadlock_prop: Some("NEG"), delay_mode: true };
+            // the control has its own (short) deadline: it must not be starved by the positive runs
+            let opts = ExploreOpts { bounds: vec![0], all_points: false, deadline: Instant::now() + Duration::from_secs(60), max_execs: 64, keep_traces: 0, deadlock_prop: Some("NEG"), delay_mode: true };
             let r = run_scenarios(&scs, mon, &opts);
             neg_runs += scs.len() as u64;
             let dl = r.col.best.iter().filter(|((p, _), _)| p == "NEG").count() as u64;
@@ -785,6 +788,7 @@ pub fn run_c11(tier: Tier, budget: Duration, frag: &mut Frag) {
     }
     // a stage inside a batch that is itself inside a batch: the user-supplied pool has enough threads,
     // the default pool (which such a batch silently creates for itself, finding KF3) has one too few
+    let deadline = Instant::now() + Duration::from_secs(60);
     for w in [2usize, 3] {
         let inner = wide_stage(w);
         let mid = vec![Op::Batch(crate::spec::BatchSpec { name: "n".into(), deps: vec![], ctrl: crate::spec::CtrlData::Unit, times: 1, multi: false, fetch_data: false, inner })];
